@@ -30,7 +30,7 @@ lines = open(sys.argv[1]).read().split("\n")
 cmd = None
 for i, l in enumerate(lines):
     t = l.strip().lstrip("$ ").strip()
-    if t.startswith("g++"):
+    if t.startswith("g++") or ("; g++ " in t and "=" in t.split("g++")[0]):
         parts = []
         j = i
         while True:
